@@ -1000,8 +1000,13 @@ def idx_arg(g, values, p=None):
         values = [v - p if g.random() < 0.6 else v for v in values]
     if len(values) == 1 and g.random() < 0.3:
         return values[0]
-    if g.random() < 0.4:
+    r = g.random()
+    if r < 0.4:
         return enc(np.array(values, dtype=int))
+    if r < 0.5:
+        return enc(tuple(values))
+    if r < 0.6 and p is not None and list(values) == list(range(len(values))):
+        return enc(range(len(values)))
     return list(values)
 
 
@@ -1283,6 +1288,10 @@ def generate(run_seed, deep=False):
 def _aslist(j):
     if isinstance(j, dict) and "__nd__" in j:
         return list(j["__nd__"]["data"]), "nd"
+    if isinstance(j, dict) and "__tuple__" in j:
+        return list(j["__tuple__"]), "list"
+    if isinstance(j, dict) and "__range__" in j:
+        return list(range(*j["__range__"])), "list"
     if isinstance(j, list):
         return list(j), "list"
     return [j], "scalar"
@@ -1371,19 +1380,9 @@ def make_variant(g, rec):
 def derived_p(m, rec):
     a = rec.get("args", {})
     if rec["method"] == "marginal":
-        X = a["X"]
-        if isinstance(X, int):
-            return 1
-        if isinstance(X, dict):
-            return X["__nd__"]["shape"][0]
-        return len(X)
+        return len(_aslist(a["X"])[0])
     if rec["method"] == "conditional":
-        Y = a["Y"]
-        if isinstance(Y, int):
-            return 1
-        if isinstance(Y, dict):
-            return Y["__nd__"]["shape"][0]
-        return len(Y)
+        return len(_aslist(a["Y"])[0])
     if a.get("population"):
         return m["p"]
     return None
